@@ -74,6 +74,13 @@ func run(c *core.Ctx) int {
 	}
 	rres := core.RunCases(c, "readdir", rcases, core.ChildOpts{Batch: 40, TimeoutS: 900, RlimitAS: 4 << 30})
 
+	nMany := c.N(36, 600)
+	var mcases []json.RawMessage
+	for i := 0; i < nMany; i++ {
+		mcases = append(mcases, core.J(manyCase{Seed: rng.U64(), Root: root}))
+	}
+	mres := core.RunCases(c, "many", mcases, core.ChildOpts{Batch: 3, TimeoutS: 900, RlimitAS: 4 << 30})
+
 	evals := int64(0)
 	crash := func(mode string, cs json.RawMessage, r core.CaseResult) bool {
 		if r.Crash == nil {
@@ -179,6 +186,48 @@ func run(c *core.Ctx) int {
 			}
 		}
 	}
+	crossed := map[int]int{}
+	for _, r := range mres {
+		if crash("many", mcases[r.Index], r) {
+			continue
+		}
+		var out struct {
+			Runs []*manyResult `json:"runs"`
+		}
+		if err := json.Unmarshal(r.Out, &out); err != nil || len(out.Runs) == 0 {
+			c.Inconclusive("bad-child-output")
+			continue
+		}
+		for ei, mr := range out.Runs {
+			if strings.HasPrefix(mr.Ended, "harness:") {
+				c.Inconclusive("harness-error")
+				continue
+			}
+			evals++
+			c.Count("many_fd_histories_"+engineNames[ei], 1)
+			for k, n := range mr.Counts {
+				c.Count("many_fd_"+k, int64(n))
+			}
+			for _, b := range mr.Crossed {
+				crossed[b]++
+			}
+			c.Distinct("many_fd_max_open", fmt.Sprint(mr.MaxOpen))
+			c.Distinct("many_fd_histories", mr.Shape)
+			if r.Index%17 == 0 && ei == 0 {
+				c.Sample(map[string]any{"mode": "many", "case": mcases[r.Index], "max_open": mr.MaxOpen, "crossed": mr.Crossed, "first_calls": mr.Log})
+			}
+			for _, f := range mr.Findings {
+				c.Count("finding:"+f.Sig, 1)
+				c.Violate(f.Sig, f.Detail, map[string]any{"mode": "many", "case": mcases[r.Index], "engine": f.Engine, "finding": f})
+			}
+		}
+	}
+	for _, b := range []int{64, 128, 192} {
+		c.Count(fmt.Sprintf("many_fd_crossed_%d_open", b), int64(crossed[b]))
+		if crossed[b] == 0 {
+			c.Inconclusive(fmt.Sprintf("many-fds:boundary-%d-not-crossed", b))
+		}
+	}
 	// scenario table (top entries) and required workload classes
 	type kv struct {
 		K string
@@ -229,9 +278,10 @@ func run(c *core.Ctx) int {
 	c.Assume("where POSIX allows alternatives the model accepts a set (ENOTEMPTY|EEXIST, EISDIR|EPERM for unlink of a directory, EBADF|EINVAL for truncating a read-only descriptor, EISDIR|EBADF for read/write on a directory); sandbox escapes ('..' above the descriptor, absolute paths) must fail with any errno")
 	c.Assume("access mode of path_open follows wazero's documented rule: RIGHT_FD_READ/WRITE select it, otherwise read-write iff O_CREAT, O_TRUNC or FD_APPEND is given")
 	c.Assume("fd_readdir: a cookie older than the previous successful call's window may be refused with ENOENT (documented by wazero's DirentCache); cookie 0 starts a new pass; directory changes are only required to be visible after a rewind")
+	c.Assume("many-descriptor histories: path_open returns the lowest free descriptor number (POSIX rule, documented by wazero at FdPreopen) also across the 64/128/192 table-word boundaries; inode numbers reported by fd_filestat_get are compared with the ones path_filestat_get gave for the same path at the start (same guest view); stdio and the preopen are compared with their own state at start")
 	c.Assume("timestamps, inode numbers, nlink and directory sizes are not compared; directory order is not compared, only the multiset")
 	return c.Finish(evals, int64(c.DistinctN("history_shapes")+c.DistinctN("readdir_scripts")),
-		"evaluations = histories x engines + readdir scripts x engines run to a verdict; distinct = distinct op:scenario sequences of histories with >=10 operations + distinct readdir call logs")
+		"evaluations = histories x engines + readdir scripts x engines + many-descriptor histories x engines run to a verdict; distinct = distinct op:scenario sequences of histories with >=10 operations + distinct readdir call logs")
 }
 
 func firstWords(s string) string {
@@ -247,6 +297,10 @@ func firstWords(s string) string {
 
 func child(mode string, in json.RawMessage) any {
 	switch mode {
+	case "many":
+		var mc manyCase
+		json.Unmarshal(in, &mc)
+		return map[string]any{"runs": []*manyResult{runMany(mc, 0), runMany(mc, 1)}}
 	case "readdir":
 		var rc rdCase
 		json.Unmarshal(in, &rc)
@@ -299,7 +353,15 @@ func replay(c *core.Ctx, path string) int {
 			rc = 1
 		}
 	}
-	if w.Witness.Mode == "readdir" {
+	if w.Witness.Mode == "many" {
+		var k manyCase
+		json.Unmarshal(w.Witness.Case, &k)
+		k.Root, k.Trace = root, true
+		for e := 0; e < 2; e++ {
+			r := runMany(k, e)
+			show(engineNames[e], r.Log, r.Findings)
+		}
+	} else if w.Witness.Mode == "readdir" {
 		var k rdCase
 		json.Unmarshal(w.Witness.Case, &k)
 		k.Root, k.Trace = root, true
